@@ -158,6 +158,9 @@ func (e *Engine) mergeInto(st *State, vals []Value, eqs [][]*Term) Value {
 			}
 			r := st.newSymStr("sum", cap)
 			r.p[0].alpha = alpha
+			for _, v := range vals {
+				r.p[0].taint |= v.(*Str).p[k].taint
+			}
 			for i, v := range vals {
 				eqs[i] = append(eqs[i], st.sEq(r, &Str{p: []Piece{v.(*Str).p[k]}}))
 			}
